@@ -13,12 +13,26 @@ import (
 // encode drives the stream into a fresh encoder of the case's codec.
 func encode(c *StreamCase) ([]byte, Result) {
 	var buf bytes.Buffer
-	res := guard(int64(20000+400*len(c.Evs)), func() error {
+	res := guard(int64(20000+400*streamSize(c.Evs)), func() error {
 		enc := structform.EnsureExtVisitor(c.Codec.NewEnc(&buf, c.Opts))
 		_, err := model.Drive(enc, c.Evs)
 		return err
 	})
 	return buf.Bytes(), res
+}
+
+// streamSize is the size of a stream in events + payload bytes (step budgets are linear in it).
+func streamSize(evs []model.Event) int {
+	n := len(evs)
+	for _, e := range evs {
+		n += len(e.S)
+		if e.K >= model.KBoolArray {
+			for _, x := range model.ExpandOne(e) {
+				n += 1 + len(x.S)
+			}
+		}
+	}
+	return n
 }
 
 // parseAll parses a complete document with the codec's one-shot Parse.
@@ -33,7 +47,7 @@ func init() {
 		engine.Register(&engine.Check{
 			ID:    "C01",
 			Level: "exploration",
-			Rule: "every well-formed event stream of the bounded language (all ordered trees up to N nodes over a leaf mini-alphabet; every scalar kind x boundary value x 7 contexts; all strings of <=k atoms + boundary lengths as value and key; container length sweep; all 29 extended events x contents x 7 contexts) x {json,ubjson,cborl} x JSON option sets is encoded by the real encoder and re-parsed by the real parser; a case is the (codec, options, event stream) triple, distinct by its rendering; non-trivial = the stream holds a container, a multi-byte token, a float or an extended event",
+			Rule:  "every well-formed event stream of the bounded language (all ordered trees up to N nodes over a leaf mini-alphabet; every scalar kind x boundary value x 7 contexts; all strings of <=k atoms + boundary lengths as value and key; container length sweep; all 29 extended events x contents x 7 contexts) x {json,ubjson,cborl} x JSON option sets is encoded by the real encoder and re-parsed by the real parser; a case is the (codec, options, event stream) triple, distinct by its rendering; non-trivial = the stream holds a container, a multi-byte token, a float or an extended event",
 			Assumptions: []string{
 				"small-scope hypothesis: trees larger than the node bound, scalars outside the boundary alphabet and strings outside the atom alphabet are not explored",
 				"map-derived objects are compared as unordered member sets (Go map iteration order is not owned)",
